@@ -22,3 +22,7 @@ def run(tier, rep):
         "and are counted, not compared"]
     if counts.get("agree", 0) < 25:
         raise ToolError("vacuity: fewer than 25 closure programs compared")
+    # a closure handed to `go` where the spawn is the VALUE of a block (function body, branch, loop body, closure body): the closure
+    # still runs, once - all schedules of both machines explored (the programs and the exploration are C09's)
+    import c09go
+    c09go.run(tier, rep, only="c09go:go-as-", floor=4)
